@@ -42,7 +42,8 @@ def space(tier):
     T = 3 if tier == "quick" else 4
     return {"trace_lengths": list(range(1, T + 1)), "planar_points": P_PLANAR, "planar_spacings": DD_PLANAR,
             "geodesic_anchors": ANCHORS, "geodesic_offsets_m": [0, 120, 35, 1000, 3], "geodesic_spacings_m": DD_GEO,
-            "forms": ["pairs", "(y,x,t) triples"]}
+            "forms": ["pairs", "(y,x,t) triples"],
+            "derived_spacings": "for the first two distinct leg lengths L of every trace and n in {1,2,3}: L/n (1 -/+ 1e-7) (1e-5 geodesic)"}
 
 
 def cases(tier):
@@ -138,7 +139,14 @@ def run_case(case):
         todo = []
         for rest in itertools.product(pts, repeat=case["T"] - 1):
             path = [pts[case["i"]]] + list(rest)
-            for dd in dds:
+            # besides the fixed spacings: spacings that sit just below / above an exact divisor of a leg of this trace
+            D_ = rg.sph_dist if latlon else rg.dist
+            legs = sorted({D_(a, b) for a, b in zip(path, path[1:]) if D_(a, b) > 0})
+            extra = []
+            for L_ in legs[:2]:
+                for n_ in (1, 2, 3):
+                    extra += [L_ / n_ * (1 - 1e-7), L_ / n_ * (1 + 1e-7)] if not latlon else [L_ / n_ * (1 - 1e-5), L_ / n_ * (1 + 1e-5)]
+            for dd in list(dds) + extra:
                 todo.append((path, dd, False))
                 todo.append((path, dd, True))
     for path, dd, triples in todo:
